@@ -40,7 +40,10 @@ def secret_arg(case):
     return NONASCII_SECRET if form == 'nonascii' else (_DEFAULT_KEYS[0].decode('ascii') if form == 'text' else _DEFAULT_KEYS[0])
 VALUES = [1, 0, -5, 3.5, True, False, 1.0, 0.0, [True, False, True], [1, 0, 1], None, '', 'x', 'é中', [1, [2, {'a': None}]], {'k': 'v', 'n': [1, 2]}, 'a=b&c?d', '"q"', 10 ** 20,
           # texts whose JSON contains '>', '?' or '~' at every offset modulo 3 (base64 alphabets differ exactly there)
-          'Saved. What next?', '/search?q=clastic&page=2', '<b>Done</b> -> continue', '?', 'a?', 'ab?', '>>>', '~x~y~z~', 'x>y?z~w']
+          'Saved. What next?', '/search?q=clastic&page=2', '<b>Done</b> -> continue', '?', 'a?', 'ab?', '>>>', '~x~y~z~', 'x>y?z~w',
+          # long values: a shopping cart, a draft text, a long unicode string (compressible), and one that is not
+          [{'sku': 1000 + i, 'qty': 1} for i in range(40)], 'lorem ipsum dolor sit amet ' * 20, 'é中' * 200,
+          ''.join(chr(33 + (i * 7919) % 90) for i in range(400))]
 KEYS = ['a', 'a', 'a', 'b', 'user', 'k e y', 'é', '_expires_not', 'x=y']
 TAMPER = ['none', 'none', 'none', 'flip_tag', 'flip_payload', 'truncate', 'extend', 'swap_sig', 'swap_payload', 'resign_other',
           'random', 'nonascii', 'nonascii_key', 'bad_b64_tag', 'no_sep', 'no_eq', 'replay_old', 'drop', 'quotes', 'bad_value', 'junk_prefix']
